@@ -116,7 +116,7 @@ def gen(rng, tier):
                     if rng.random() < 0.8:
                         f["attrs"].append([lk, [rng.choice(PLAIN_VALS)]])
     return {"dialect": d, "feats": feats, "checklines": checklines, "keep_order": keep_order, "sort_values": sortv,
-            "dbfn": rng.choice(["a.db", "a.db", "a.db", ":memory:"]), "form": rng.choice(["path", "path", "string", "gz", "gen"]),
+            "dbfn": rng.choice(["a.db", "a.db", "a.db", ":memory:"]), "form": rng.choice(["path", "path", "string", "gz", "gen", "iter1"]),
             "end": rng.choice(["exit", "crash", "crash"]), "directives": rng.choice([[], [], ["gff-version 3"]]),
             "short_writes": rng.random() < 0.5, "interleave": rng.random() < 0.5, "isched": [rng.randrange(2) for _ in range(rng.randint(2, 12))],
             "update_other_dialect": rng.random() < 0.35,
@@ -162,7 +162,7 @@ def run(case):
     d_ = case["dialect"]
     feats = case["feats"]
     in_lines = [G.render_line(f, d_) for f in feats]
-    if case["form"] == "gen":
+    if case["form"] in ("gen", "iter1"):
         case = dict(case, directives=[])
     text = "".join("##%s\n" % x for x in case["directives"]) + "\n".join(in_lines) + "\n"
     lines = in_lines
@@ -176,8 +176,9 @@ def run(case):
 
         node = w.node()
         spec = {"form": case["form"], "text": text, "name": "in.gff"}
-        if case["form"] == "gen":
-            spec = {"form": "gen", "lines": in_lines}  # a one-shot stream of Feature objects parsed line by line
+        if case["form"] in ("gen", "iter1"):
+            # a one-shot stream of Feature objects parsed line by line: a generator, or a plain iterator object (map, iter(list), ...)
+            spec = {"form": case["form"], "lines": in_lines}
         kw = dict(okw, checklines=case["checklines"], merge_strategy="create_unique")
         if d_["fam"] == "gtf":
             kw.update({"disable_infer_genes": True, "disable_infer_transcripts": True})
